@@ -28,16 +28,16 @@ def run(ctx):
     rcf = ctx.rule('R-CASFRESH', 'every retry of a compare-exchange re-tests the refreshed expected value against the '
                    'sentinels the first attempt tested', minimum=0)
     for cfg, fb in sorted(fbs.items()):
-        lib_order.check_cas_fresh(ctx, fb, rcf, lambda f: f.clsq == S)
-        lib_shape.check(ctx, fb, rsh, lambda qn: 'Strand' in qn, 2)
+        ctx.guard(lambda: lib_order.check_cas_fresh(ctx, fb, rcf, lambda f: f.clsq == S))
+        ctx.guard(lambda: lib_shape.check(ctx, fb, rsh, lambda qn: 'Strand' in qn, 2))
         if cfg == 'K17':
-            lib_order.check(ctx, fb, cfg, [S + '::_jobs'], rw, ro, rc)
+            ctx.guard(lambda: lib_order.check(ctx, fb, cfg, [S + '::_jobs'], rw, ro, rc))
         fns = {f.n: f for f in fb.fn.values() if f.clsq == S and f.cfg is not None}
         for need in ('Submit', 'Call', 'Drop'):
             if need not in fns:
                 ctx.broken('Strand::%s not found' % need)
-        lib_exec.check_submit_linear(ctx, fb, rl, lambda f: f.clsq == S)
-        lib_exec.check_dequeue(ctx, fb, rl, [fns['Call'], fns['Drop']])
+        ctx.guard(lambda: lib_exec.check_submit_linear(ctx, fb, rl, lambda f: f.clsq == S))
+        ctx.guard(lambda: lib_exec.check_dequeue(ctx, fb, rl, [fns['Call'], fns['Drop']]))
         # ---- schedule
         f = fns['Submit']
         w = lib_exec.ExecWalker(fb, S)
